@@ -115,11 +115,21 @@ class Scenario(object):
 
     # -- hostile helpers -------------------------------------------------------------------
     def hostile(self, hello=True):
-        h = client.Client(self.daemon.sock, self.clock)
-        h.auth()
-        if hello:
-            h.hello()
-        return h
+        # a new connection may be turned away while connections of an earlier attack are still being torn down
+        # (limits on unauthenticated connections): try again a few times before treating it as the bus not serving
+        for attempt in range(6):
+            h = client.Client(self.daemon.sock, self.clock)
+            try:
+                h.auth()
+                if hello:
+                    h.hello()
+                return h
+            except client.Closed:
+                h.close()
+                if attempt == 5 or not self.daemon.alive():
+                    raise
+                self.part.count("hostile-connection-turned-away-once")
+                time.sleep(0.05 * (attempt + 1))
 
     def expect_eof(self, h, cls, reason):
         ok = h.wait_eof(timeout=client.WATCHDOG)
